@@ -1340,15 +1340,11 @@ static void ares_dns_opt_free_cb(void *arg)
   ares_free(opt->val);
 }
 
-ares_status_t ares_dns_rr_set_opt_own(ares_dns_rr_t    *dns_rr,
-                                      ares_dns_rr_key_t key, unsigned short opt,
-                                      unsigned char *val, size_t val_len)
+static ares_status_t ares_dns_rr_opt_array(ares_dns_rr_t    *dns_rr,
+                                           ares_dns_rr_key_t key,
+                                           ares_array_t    **options_out)
 {
-  ares_array_t     **options;
-  ares_dns_optval_t *optptr = NULL;
-  size_t             idx;
-  size_t             cnt;
-  ares_status_t      status;
+  ares_array_t **options;
 
   if (ares_dns_rr_key_datatype(key) != ARES_DATATYPE_OPT) {
     return ARES_EFORMERR;
@@ -1367,9 +1363,53 @@ ares_status_t ares_dns_rr_set_opt_own(ares_dns_rr_t    *dns_rr,
     return ARES_ENOMEM;
   }
 
-  cnt = ares_array_len(*options);
+  *options_out = *options;
+  return ARES_SUCCESS;
+}
+
+ares_status_t ares_dns_rr_add_opt_own(ares_dns_rr_t    *dns_rr,
+                                      ares_dns_rr_key_t key, unsigned short opt,
+                                      unsigned char *val, size_t val_len)
+{
+  ares_array_t      *options = NULL;
+  ares_dns_optval_t *optptr  = NULL;
+  ares_status_t      status;
+
+  status = ares_dns_rr_opt_array(dns_rr, key, &options);
+  if (status != ARES_SUCCESS) {
+    return status;
+  }
+
+  status = ares_array_insert_last((void **)&optptr, options);
+  if (status != ARES_SUCCESS) {
+    return status;
+  }
+
+  optptr->opt     = opt;
+  optptr->val     = val;
+  optptr->val_len = val_len;
+
+  return ARES_SUCCESS;
+}
+
+ares_status_t ares_dns_rr_set_opt_own(ares_dns_rr_t    *dns_rr,
+                                      ares_dns_rr_key_t key, unsigned short opt,
+                                      unsigned char *val, size_t val_len)
+{
+  ares_array_t      *options = NULL;
+  ares_dns_optval_t *optptr  = NULL;
+  size_t             idx;
+  size_t             cnt;
+  ares_status_t      status;
+
+  status = ares_dns_rr_opt_array(dns_rr, key, &options);
+  if (status != ARES_SUCCESS) {
+    return status;
+  }
+
+  cnt = ares_array_len(options);
   for (idx = 0; idx < cnt; idx++) {
-    optptr = ares_array_at(*options, idx);
+    optptr = ares_array_at(options, idx);
     if (optptr == NULL) {
       return ARES_EFORMERR;
     }
@@ -1378,17 +1418,12 @@ ares_status_t ares_dns_rr_set_opt_own(ares_dns_rr_t    *dns_rr,
     }
   }
 
+  /* New entry */
+  if (idx == cnt || optptr == NULL) {
+    return ares_dns_rr_add_opt_own(dns_rr, key, opt, val, val_len);
+  }
+
   /* Duplicate entry, replace */
-  if (idx != cnt && optptr != NULL) {
-    goto done;
-  }
-
-  status = ares_array_insert_last((void **)&optptr, *options);
-  if (status != ARES_SUCCESS) {
-    return status;
-  }
-
-done:
   ares_free(optptr->val);
   optptr->opt     = opt;
   optptr->val     = val;
